@@ -38,6 +38,13 @@ Proof.
   - exact LP.
 Qed.
 
+Lemma spec_mapping_data sz opts : opts_ok opts ->
+  mapping_data (mkMap (Some sz) (Some (map wire_pair opts))) = spec_mapping opts.
+Proof.
+  intros [_ [_ [_ LP]]]. unfold mapping_data, spec_mapping, map_values, u16, nlen. cbn [m_size m_vals].
+  rewrite spec_pairs_serialize in *. rewrite N.mod_small by exact LP. reflexivity.
+Qed.
+
 Theorem spec_router_address_accepted cost date style opts r :
   (cost < 256)%N -> (date < 2 ^ 64)%N -> (length style <= 255)%nat -> opts_ok opts ->
   exists sz, read_router_address (spec_router_address cost date style opts ++ r) =
